@@ -389,14 +389,42 @@ def debug_wrapper_reads_only(ctx):
         drives = [c for c in ast.walk(f) if isinstance(c, ast.Call) and isinstance(c.func, ast.Attribute) and c.func.attr == "eq" and isinstance(c.func.value, ast.Name) and c.func.value.id in alias]
         rets = [r for r in ast.walk(f) if isinstance(r, ast.Return)]
         returns_alias = [r for r in rets if isinstance(r.value, ast.Name) and r.value.id in alias]
+        # ... and the signal handed out follows the value combinationally
+        ret_names = {r.value.id for r in rets if isinstance(r.value, ast.Name)}
+        follows = [st for st in ast.walk(f) if isinstance(st, ast.AugAssign) and isinstance(st.op, ast.Add) and isinstance(st.target, ast.Attribute) and st.target.attr == "comb"
+                   and isinstance(st.target.value, ast.Attribute) and st.target.value.attr == "d"
+                   and isinstance(st.value, ast.Call) and isinstance(st.value.func, ast.Attribute) and st.value.func.attr == "eq"
+                   and isinstance(st.value.func.value, ast.Name) and st.value.func.value.id in ret_names
+                   and len(st.value.args) == 1 and isinstance(st.value.args[0], ast.Name) and st.value.args[0].id in alias]
+        ctx.check(bool(follows) and len(ret_names) == 1, "C33.debug-wrapper-copy-follows", f"{GEN}:{f.lineno}", "VerilogDebugWrapper.to_signal.copy",
+                  found=f"{len(follows)} combinational assignment(s) of the value to the returned signal", required="m.d.comb += <returned signal>.eq(<the value>)")
         ctx.check(not drives and not returns_alias and bool(rets), "C33.debug-wrapper-reads-only", f"{GEN}:{f.lineno}", "VerilogDebugWrapper.to_signal",
                   found=f"{len(drives)} assignment(s) to the given value, {len(returns_alias)} return(s) of the given value itself",
                   required="the value is copied into a signal of the wrapper (sig = Signal.like(val); comb += sig.eq(val)); the design's own signal is neither driven nor handed out")
 
 
+def debug_wrapper_all_sites(ctx):
+    """The wrapper exposes EVERY emission site (and every log record): one entry per element of get_emitted_events() /
+    get_log_records(0), unconditionally; the packed trigger vector has one bit per recorded site, in that order."""
+    fn = Fn(ctx.repo, GEN, "VerilogDebugWrapper.elaborate", "C33")
+    apps = fn.facts(Effect, lambda e: pmatch("self.evlog_records.append(Q_x)", e.call) is not None)
+    ok = False
+    for ex, e in apps:
+        lp = loops(e)
+        ok = ok or (len(lp) == 1 and pmatch("get_emitted_events()", lp[0][1]) is not None and py_guard(e) is True
+                    and pmatch("self.evlog_records.append((Q_e, Q_t, Q_f))", e.call) is not None and pmatch("self.evlog_records.append((Q_e, Q_t, Q_f))", e.call)["e"] == lp[0][0][0])
+    ctx.check(ok, "C33.debug-wrapper-all-sites", apps[0][1].site if apps else fn.site, "VerilogDebugWrapper.evlog_records", found="; ".join(f"{tstr(e.call)[:80]} over {[tstr(l[1]) for l in loops(e)]} if {fstr(py_guard(e))}" for _, e in apps) or "no site recorded",
+              required="(event, trigger, fields) is recorded for every element of get_emitted_events(), unconditionally")
+    recs = fn.facts(Effect, lambda e: pmatch("self.records.append(Q_x)", e.call) is not None)
+    okr = any(len(loops(e)) == 1 and pmatch("logging.get_log_records(0)", loops(e)[0][1]) is not None and py_guard(e) is True for _, e in recs)
+    ctx.check(okr, "C33.debug-wrapper-all-sites", recs[0][1].site if recs else fn.site, "VerilogDebugWrapper.records", found=f"{len(recs)} append(s)",
+              required="a record is kept for every log record of every level, unconditionally", nontrivial=False)
+
+
 def check(ctx):
     ctx.use(EMIT, LOG, SAMPLER, TEVLOG, CONSUMER, SCHEMA)
     debug_wrapper_reads_only(ctx)
+    debug_wrapper_all_sites(ctx)
     capture_process(ctx)
     from . import c33y
 
